@@ -17,17 +17,19 @@ WITNESSES = ["permuted_columns", "extra_column", "reindexed", "extra_rows", "the
 NONTRIVIAL = WITNESSES
 
 COLS = ["MinTemp", "MaxTemp", "Precipitation", "ReferenceET", "Date"]
-EXTRA = ["none", "front", "middle", "end"]
+EXTRA = ["none", "front", "middle", "end", "nan_gaps"]
 INDEX = ["range", "shift1000", "reversed_labels", "strings", "date"]
 ROWS = ["none", "lead400", "trail400", "both", "lead_gap", "lead_dup", "lead_labels", "trail_gap"]
 CROPS = {
     "calendar": lambda: A.to_spec(A._b(crop="maize.2", win="w2", word="mix", irr="smt")),
     "thermal": lambda: _thermal(),
+    "thermal_at_planting": lambda: _thermal(start_on_planting=True),
+    "switchgdd": lambda: A.catalogue_spec("Maize", word="hot", cropkw={"SwitchGDD": 1}, end="2003/04/20"),
 }
 
 
-def _thermal():
-    s = A.to_spec(A._b(crop="maize.2", win="w2", word="hot"))
+def _thermal(start_on_planting=False):
+    s = A.to_spec(A._b(crop="maize.2", win="w2" if not start_on_planting else {"pre": 0, "seasons": 2}, word="hot"))
     s["crop"] = {"name": "MaizeGDD", "planting": "05/01", "harvest": "07/30", "scale": None, "gddscale": 0.15, "kw": {}}
     return s
 
@@ -37,7 +39,7 @@ def scenarios(tier, seed=0):
     ident = tuple(range(5))
     if tier == "quick":
         for ck in CROPS:
-            for p in perms:
+            for p in (perms if ck in ("calendar", "thermal") else perms[::10]):
                 yield {"crop": ck, "perm": list(p), "extra": "none", "index": "range", "rows": "none"}
             for e in EXTRA[1:]:
                 yield {"crop": ck, "perm": list(ident), "extra": e, "index": "range", "rows": "none"}
@@ -57,7 +59,13 @@ def scenarios(tier, seed=0):
 def transform(df, scn, spec):
     cols = [COLS[i] for i in scn["perm"]]
     d = df[cols].copy()
-    if scn["extra"] != "none":
+    if scn["extra"] == "nan_gaps":
+        # an unrelated column with sensor gaps (NaN) on some in-window days
+        wind = np.linspace(1.0, 9.0, len(d))
+        wind[::11] = np.nan
+        wind[5:9] = np.nan
+        d.insert(2, "WindSpeed", wind)
+    elif scn["extra"] != "none":
         junk = np.linspace(-50.0, 900.0, len(d))
         pos = {"front": 0, "middle": 2, "end": len(cols)}[scn["extra"]]
         d.insert(pos, "Humidity", junk)
@@ -137,11 +145,11 @@ def run(scn):
 
 def describe(tier):
     return {
-        "rule": "ALL 120 permutations of the five required columns; unrelated extra columns at the front / middle / end; index {RangeIndex, shifted by 1000, reversed labels, "
+        "rule": "ALL 120 permutations of the five required columns; unrelated extra columns at the front / middle / end, and one with NaN gaps; index {RangeIndex, shifted by 1000, reversed labels, "
                 "string labels, Date index}; 400 extra leading / trailing rows / both, also with a gap of missing days, a duplicated row or dropped-but-not-re-indexed rows outside the window; " + ("each factor alone against the identity plus three combined cases" if tier == "quick" else "the FULL product (19200 tables)")
-                + "; x {calendar-day crop with threshold irrigation, thermal-time crop whose calendar is re-derived from the weather matrix at each season start} over 2 seasons. "
+                + "; x {calendar-day crop with threshold irrigation; thermal-time crop started before / on its planting date; calendar crop converted to thermal time (SwitchGDD=1)} over 2 seasons. "
                 "Oracle: all four tables bitwise equal to the run fed with the canonical table.",
-        "bound": "120 permutations complete; " + ("factors alone" if tier == "quick" else "full product 120 x 4 x 5 x 8") + " x 2 crops",
+        "bound": "120 permutations complete; " + ("factors alone" if tier == "quick" else "full product 120 x 5 x 5 x 8") + " x 2 crops",
         "exhaustive": True,
         "witnesses": WITNESSES,
         "assumptions": ["bitwise comparison on one interpreter/numpy build"],
